@@ -2,6 +2,8 @@
 From Coq Require Import String.
 From V Require Import Lib.Base Lib.Cbor Lib.CborParse C04.Model C04.Gen C04.Proofs.
 Local Open Scope N_scope.
+Ltac vc := vm_compute; reflexivity.
+Ltac conj_vc := repeat (match goal with |- _ /\ _ => split; [vc|] end); vc.
 
 (* Generic round trip: for EVERY schema and every value that cbor.Encode
    accepts for it, decoding the encoding gives the value back (fixed and
@@ -47,7 +49,7 @@ Theorem C04_point_pinned_refuted :
   dec_pinned SPoint (Arr (Some Fimm) [UInt Fimm 5]) = Some VOrigin /\
   dec_s SPoint (Arr (Some Fimm) [UInt Fimm 5; UInt Fimm 6; UInt Fimm 7]) = None /\
   dec_s SPoint (Arr (Some Fimm) [UInt Fimm 5]) = None.
-Proof. repeat split; reflexivity. Qed.
+Proof. conj_vc. Qed.
 
 (* Field types, partial: for items without tags and simple values in the
    field position (that is excluding the library coercions below) an unsigned
@@ -81,15 +83,15 @@ Theorem C04_field_types_refuted :
   dec_s (SStruct [SUInt 8; SUInt 16]) (Arr (Some Fimm) [UInt Fimm 0; Tag F1 24 (UInt Fimm 5)]) = Some (VStruct [VUInt 0; VUInt 5]) /\
   dec_s (SStruct [SUInt 8; SPoint; SStruct [SPoint; SUInt 64]]) (Arr (Some Fimm) [UInt Fimm 3; Arr (Some Fimm) []; Simple Fimm 22])
     = Some (VStruct [VUInt 3; VOrigin; VStruct [VOrigin; VUInt 0]]).
-Proof. repeat split; reflexivity. Qed.
+Proof. conj_vc. Qed.
 
 (* non-vacuity: a chain-sync RollBackward with a real point and tip *)
 Example C04_roundtrip_ex :
   let v := VStruct [VUInt 3; VPoint 1000 [1;2;3]; VStruct [VOrigin; VUInt 18446744073709551615]] in
   exists i, enc_s sch_chainsync_ntn_MsgRollBackward v = Some i /\ dec_s sch_chainsync_ntn_MsgRollBackward i = Some v.
-Proof. eexists. split; vm_compute; reflexivity. Qed.
+Proof. eexists. split; [vm_compute; reflexivity|vc]. Qed.
 Example C04_arity_ex :
   dec_s sch_keepalive_MsgKeepAlive (Arr (Some Fimm) [UInt Fimm 0; UInt Fimm 5; UInt Fimm 6]) = None /\
   dec_s sch_keepalive_MsgKeepAlive (Arr (Some Fimm) [UInt Fimm 0]) = None /\
   dec_s sch_keepalive_MsgKeepAlive (Arr None [UInt F1 0; UInt F2 5]) = Some (VStruct [VUInt 0; VUInt 5]).
-Proof. repeat split; reflexivity. Qed.
+Proof. conj_vc. Qed.
